@@ -136,7 +136,9 @@ def per_step(f):
         if conn.status != ConnectionStatus.CONNECTED:
             continue
         for seq, t in conn.pending_acks.items():
-            if now - t > f.timeout_cfg[side] + 0.08 and len(f.stale_pending) < 3:
+            # (a client frame whose sendto() raised never reaches the library's timeout sweep: one more frame of slack per fault)
+            slack = 0.08 + (f.client_frame_dt * len(f.ch_faults) if side == "c" else 0.0)
+            if now - t > f.timeout_cfg[side] + slack and len(f.stale_pending) < 3:
                 f.stale_pending.append("side=%s datagram seq %d still pending %.3f s after it was sent (configured timeout %.2f)" % (side, seq, now - t, f.timeout_cfg[side]))
 
 
